@@ -117,6 +117,12 @@ def _stub(f_scalars: bool, f_containers: bool, f_nested: bool, f_ct: bool, f_vir
                 instance_method(schema, name)(METHODS[i])
                 methods[name] = METHODS[i]
     fields_before = list(schema._fields.keys())
+    if f_nested and target == 0 and not methods and not f_ct:
+        # the stub of a NESTED schema (a field of another schema) describes that schema, not its owner
+        text = generate_stub(schema.sub, class_name="Nested")
+        sub_cls = [n for n in ast.parse(text).body if isinstance(n, ast.ClassDef)][0]
+        sub_attrs = [n.target.id for n in sub_cls.body if isinstance(n, ast.AnnAssign)]
+        hold("stub", sub_attrs == ["x"], lambda: "stub of the nested schema declares %r" % (sub_attrs,))
     if target == 0:
         obj, kw = schema, {"class_name": "Stub"}
     elif target == 1:
@@ -131,6 +137,12 @@ def _stub(f_scalars: bool, f_containers: bool, f_nested: bool, f_ct: bool, f_vir
     with contextlib.redirect_stdout(out):
         text = generate_stub(obj, **kw)
     hold("stub", out.getvalue() == "", lambda: "generate_stub wrote to standard output: %r" % out.getvalue())
+    with contextlib.redirect_stdout(io.StringIO()):
+        again = generate_stub(obj, **kw)
+        third = generate_stub(schema, class_name="Stub")
+    hold("stub", again == text, "a second generation gives a different stub (the first one had a side effect)")
+    if target == 0:
+        hold("stub", third == text, "third generation differs")
     hold("stub", list(schema._fields.keys()) == fields_before, "generate_stub changed the schema")
     hold("stub", "runtime_extra" not in schema() , "a configuration built afterwards carries the other's dynamic key")
     if cfg_before is not None:
